@@ -201,6 +201,52 @@ def binding_family(rng, full):
     return progs
 
 
+def attribute_family(rng, full):
+    """<%ns:def> tags whose attribute values are every sequence of 1..3 (4) pieces over literal word / blank(s) only /
+    padded word / punctuation / ${str} / empty, plus single ${int} and ${None}; the callee prints each keyword
+    argument atom by atom (blanks included)."""
+    import itertools
+    n = iter(range(1, 100000))
+
+    def piece(kind):
+        if kind == "word":
+            return dict(kind="lit", atoms=["w%d" % next(n)])
+        if kind == "blank":
+            return dict(kind="lit", atoms=["SP"])
+        if kind == "blank2":
+            return dict(kind="lit", atoms=["SP", "SP"])
+        if kind == "padded":
+            return dict(kind="lit", atoms=["SP", "w%d" % next(n), "SP"])
+        if kind == "punct":
+            return dict(kind="lit", atoms=[rng.choice(["DASH", "COLON"])])
+        if kind == "expr":
+            return dict(kind="expr", atoms=["e%d" % next(n)])
+        if kind == "int":
+            return dict(kind="expr", atoms=["i%d" % next(n)])
+        if kind == "none":
+            return dict(kind="expr", atoms=["none"])
+        return dict(kind="lit", atoms=[])
+    kinds = ["word", "blank", "blank2", "padded", "punct", "expr", "empty"]
+    values = [[piece("int")], [piece("none")]]
+    for ln in range(1, 5 if full else 4):
+        for combo in itertools.product(kinds, repeat=ln):
+            values.append([piece(k) for k in combo])
+    rng.shuffle(values)
+    ps = [dict(n="p", kind="opt", dv="dp"), dict(n="q", kind="opt", dv="dq"), dict(n="kw", kind="dstar", dv="-")]
+    show = [dict(k="expr", parts=[lit("<p"), dict(k="val", v="p", vk="vis"), lit("<q"), dict(k="val", v="q", vk="vis"), lit(">")]),
+            dict(k="expr", parts=[dict(k="cbody", args=dict(pos=[], kw=[]))])]
+    progs = []
+    calls = []
+    for i in range(0, len(values) - 1, 2):
+        kw = [dict(n="p", nt="p:", v="-", pieces=values[i]), dict(n="q", nt="q:", v="-", pieces=values[i + 1])]
+        calls.append(dict(k="callc", ns=True, parts=[dict(k="call", d="d0", via="name", args=dict(pos=[], kw=kw))],
+                          body=[dict(k="text", t="t%d" % next(n))], bparams=[], defs=[]))
+    for i in range(0, len(calls), 12):
+        d0 = dict(flags=set(), fm=0, dec=False, dm=0, blk=False, params=ps, bsig=[], nested=[], home=0, body=show)
+        progs.append(dict(defs={"d0": d0}, incs=[], body=calls[i:i + 12], eh=False, fe=False, top=["d0"], el="on"))
+    return progs
+
+
 def check(run):
     thorough = run.thorough
     maxraise = 10 if not thorough else 14
@@ -213,6 +259,10 @@ def check(run):
     for i in range(0, len(bind), 600):
         rc.check_batch(run, bind[i:i + 600], 0, "binding-%d" % (i // 600), coverage=True)
     run.extra["binding_programs"] = len(bind)
+    # ---- 1c. attribute values of <%ns:def> tags as mixtures of literal pieces and ${} values
+    attrs = attribute_family(run.rng, thorough)
+    rc.check_batch(run, attrs, 0, "attributes", coverage=True)
+    run.extra["attribute_programs"] = len(attrs)
     # ---- 2. seeded random programs; nesting to depth 4
     n_rand = 260 if not thorough else 3000
     prof = rc.profile(w=dict(expr=6, callc=5, block=2, **{"while": 1, "with": 1}), depth=3, p_calldefs=0.4)
